@@ -1184,6 +1184,14 @@ func (c *Ctx) mustWriteMeta(g *ssa.Function, busy map[*ssa.Function]bool) bool {
 	return c.successWithoutCut(g, []edge2{{nil, g.Blocks[0]}}, cut, nil) == ""
 }
 
+type unitAt struct {
+	b *ssa.BasicBlock
+	p token.Pos
+}
+
+func (u unitAt) Block() *ssa.BasicBlock { return u.b }
+func (u unitAt) Pos() token.Pos         { return u.p }
+
 // TXW1: every operation that changes documents or index entries also writes the
 // collection's catalog record before it commits. On badger, transactions are
 // optimistic and only keys that were READ are validated at commit: two bulk
@@ -1195,14 +1203,61 @@ func (c *Ctx) mustWriteMeta(g *ssa.Function, busy map[*ssa.Function]bool) bool {
 func ruleTXW1(c *Ctx) []Ob {
 	o := newObs(c, "TXW1")
 	n := 0
+	// the units of work: a function that opens a write transaction itself, or a closure taking the
+	// transaction that is handed to a transaction helper (db.update(func(tx store.Tx) error {...}))
+	type unit struct {
+		fn    *ssa.Function
+		start *ssa.BasicBlock
+		pos   token.Pos
+	}
+	var units []unit
+	helper := map[*ssa.Function]bool{}
 	for _, op := range c.openers() {
-		if op.Kind != "w" || op.Transfer || c.pkgRel(op.Fn) != "" {
+		if c.pkgRel(op.Fn) != "" {
 			continue
 		}
-		fn := op.Fn
+		takesFunc := false
+		for _, p := range op.Fn.Params {
+			if sig, ok := p.Type().Underlying().(*types.Signature); ok && sig.Params().Len() >= 1 && c.libNamedIs(sig.Params().At(0).Type(), "store", "Tx") {
+				takesFunc = true
+			}
+		}
+		if takesFunc {
+			helper[op.Fn] = true
+			continue
+		}
+		if op.Kind != "w" || op.Transfer {
+			continue
+		}
+		units = append(units, unit{op.Fn, op.Call.Block(), op.Call.Pos()})
+	}
+	for _, fn := range c.LibFuncs {
+		if c.pkgRel(fn) != "" {
+			continue
+		}
+		allCalls(fn, func(ci ssa.CallInstruction) {
+			g := staticCallee(ci)
+			if g == nil || !helper[c.declared(g)] {
+				return
+			}
+			for _, a := range ci.Common().Args {
+				if cf := closureFn(a); cf != nil && len(cf.Blocks) > 0 && len(cf.Params) >= 1 && c.libNamedIs(cf.Params[0].Type(), "store", "Tx") {
+					units = append(units, unit{cf, cf.Blocks[0], ci.Pos()})
+				}
+			}
+		})
+	}
+	for _, u := range units {
+		fn := u.fn
 		if c.eff(fn)&(EffDocWrite|EffIdxAdd|EffIdxRemove|EffIdxDrop) == 0 {
 			continue
 		}
+		op := struct {
+			Call interface {
+				Block() *ssa.BasicBlock
+				Pos() token.Pos
+			}
+		}{unitAt{u.start, u.pos}}
 		n++
 		key := c.fname(fn) + "/catalog record written by every writer"
 		cut := map[*ssa.BasicBlock]bool{}
